@@ -448,7 +448,10 @@ class Parser:
     def _rvalue_expr(self, dest, code_gen):
         if not ExpressionParser(self).expression():
             return False
-        code_gen.pop(dest)
+        if dest is not OpCode.PUSH:
+            # Otherwise it's an operand of an enclosing expression, which
+            # expects to find the value on the stack.
+            code_gen.pop(dest)
         return True
 
     def _at_rvalue(self, include_reg=True) -> bool:
